@@ -18,7 +18,7 @@ static Verdict run(const Case &c) {
     int ia = w.add_if(ca), ib = w.add_if(cb);
     Mac M = h.st_real(0);
     auto third = [&](int k) { return mac_from_u64(0x0400F0000000ULL + (uint64_t)k); };
-    auto srcsel = [&](int k) { return k == 0 ? A : mac_from_u64(0x0400CC000000ULL + (uint64_t)k); };   // k in 0..255: A itself or a spoofed source
+    auto srcsel = [&](int k) { return k == 0 ? A : k == 250 ? B : mac_from_u64(0x0400CC000000ULL + (uint64_t)k); };   // k in 0..255: A itself or a spoofed source
     // B must report these (real source A, Ethernet source, Ethernet destination B); and must not report frames for third stations
     std::set<QDesc> must;          // keyed without type
     std::set<Mac> forbidden_edst;  // third-station destinations A emitted to
@@ -83,6 +83,7 @@ static Verdict run(const Case &c) {
                 Bytes f = k == 0 ? mk_simple(third(2), third(1), 0, OP_PROBE, third(2), third(1), 0)
                         : k == 1 ? mk_hello(third(3), 0, 9, M, M)
                         : k == 2 ? mk_simple(A, third(1), 0, OP_TRAIN, A, third(1), 0)
+                        : k == 5 ? mk_simple(B, srcsel(1 + (int)(op.arg(1, 1) & 1)), 0, OP_PROBE, B, third(1), 0)   // unrelated probe to B whose Ethernet source coincides with a source A is told to spoof
                         : k == 3 ? mk_qlt(A, third(2), A, third(2), (uint16_t)op.arg(1, 1), 0x11, 0, 1)     // quick-discovery request from another station
                                  : mk_qlt(A, M, A, M, (uint16_t)op.arg(1, 1), 0x0E, 0, 0);                  // the mapper fetches the icon in between
                 (void)w.deliver(ib, f); (void)w.deliver(ia, f);
@@ -140,10 +141,10 @@ int main(int argc, char **argv) {
                 for (int i = 0; i < nd; i++) {
                     o.blob.push_back((uint8_t)*gx::pick({0, 1}));
                     o.blob.push_back((uint8_t)*gx::bnd({0, 1, 255}, 0, 255, 1, 1));
-                    o.blob.push_back((uint8_t)*gx::pick({0, 0, 0, 1, 2, 200}));
+                    o.blob.push_back((uint8_t)*gx::pick({0, 0, 0, 1, 2, 200, 250}));
                     o.blob.push_back((uint8_t)*gx::pick({0, 0, 0, 1, 2, 3}));
                 }
-            } else if (k <= 7) { o.kind = K_NOISE; o.a = {*gx::range<int64_t>(0, 4), *hg::seq_gen()}; }
+            } else if (k <= 7) { o.kind = K_NOISE; o.a = {*gx::range<int64_t>(0, 5), *hg::seq_gen()}; }
             else { o.kind = K_QUERY_B; o.a = {*hg::seq_gen()}; }
             return o;
         })));
